@@ -47,6 +47,11 @@ def _setup() -> None:
         dims.TH)),
         "sqrt(meter)": (sp.sqrt(U.meter), 1, dims.L**Fraction(1, 2)),
         "1": (sp.Integer(1), 1, dims.ONE),
+        # dimensions outside the seven SI base dimensions are dimensions too
+        "bit": (U.bit, 1, dims.base("information")),
+        "byte": (U.byte, 8, dims.base("information")),
+        "byte/second": (U.byte / U.second, 8, dims.base("information") / dims.T),
+        "byte*meter": (U.byte * U.meter, 8, dims.base("information") * dims.L),
     }
     for n, (e, f, d) in comp.items():
         _U[n] = (e, sp.sympify(f), d)
@@ -82,13 +87,24 @@ def pair_cases(an: str) -> list[tuple[str, str]]:
         q = Quantity(m * ae)
         si = m * af
         # own SI unit
-        got = convert_to_si(q)
-        out.append((f"si:{an}:{mn}", "" if eq_exact(got, si) else
-            f"convert_to_si({mn} {an}) = {short(got)}, reference {short(si)}"))
-        unit = dimension_to_si_unit(q.dimension)
-        want_unit = catalogue.si_unit_of(ad)
-        if sp.simplify(unit / want_unit) != 1:
-            out.append((f"siunit:{an}", f"dimension_to_si_unit gives {unit}, reference {want_unit}"))
+        if any(b not in dims.BASES for b in ad.e):
+            # a dimension outside the SI base dimensions has no SI unit: nothing to convert to, and
+            # it must not be mistaken for a number
+            try:
+                got = convert_to_si(q)
+                bad = f"convert_to_si({mn} {an}) = {short(got)} although {ad} has no SI unit"
+            except REFUSAL:
+                bad = ""
+            out.append((f"si:{an}:{mn}", bad))
+        else:
+            got = convert_to_si(q)
+            out.append((f"si:{an}:{mn}", "" if eq_exact(got, si) else
+                f"convert_to_si({mn} {an}) = {short(got)}, reference {short(si)}"))
+            unit = dimension_to_si_unit(q.dimension)
+            want_unit = catalogue.si_unit_of(ad)
+            if sp.simplify(unit / want_unit) != 1:
+                out.append((f"siunit:{an}", f"dimension_to_si_unit gives {unit}, reference "
+                    f"{want_unit}"))
         if ad.dimensionless:
             try:
                 f = convert_to_float(q)
